@@ -95,8 +95,12 @@ def run_shard(ctx):
 
             if not single and rng.random() < 0.25:
                 # the directory is named through a legal non-canonical spelling (shell completion, os.path.join(d, ""), joined configuration values)
-                sp_ = rng.choice(["trailing-separator", "trailing-separator", "double-slash", "dot", "dotdot"])
-                spath = {"trailing-separator": spath + os.sep, "double-slash": d + "//src", "dot": d + "/./src", "dotdot": d + "/src/../src"}[sp_]
+                sp_ = rng.choice(["trailing-separator", "trailing-separator", "double-slash", "dot", "dotdot", "cwd", "cwd-relative"])
+                spath = {"trailing-separator": spath + os.sep, "double-slash": d + "//src", "dot": d + "/./src", "dotdot": d + "/src/../src",
+                         "cwd": ".", "cwd-relative": "src"}[sp_]
+                if sp_ in ("cwd", "cwd-relative"):
+                    # the directory is named relative to the process's working directory
+                    os.chdir(src if sp_ == "cwd" else d)
                 cfgd["source_path_spelling"] = sp_
                 res.count("staged_through_trailing_separator" if sp_ == "trailing-separator" else "staged_through_non_normalised_path")
             if cls == "local" and rng.random() < 0.15:
@@ -111,7 +115,7 @@ def run_shard(ctx):
                     os.chmod(dp, 0o644)
                     res.count("debris_objects_planted")
                 cfgd["debris"] = True
-            _st, meta, obj = env.stage(odb, spath)
+            _st, meta, obj = env.stage(odb, spath)  # (the working directory stays where it is until the staged references have been used)
             if rng.random() < 0.2:
                 # between staging and transfer, another location sharing contents is staged for the same store and then changes
                 other = os.path.join(d, "other")
@@ -133,7 +137,10 @@ def run_shard(ctx):
                 _transfer(_st, odb, {obj.hash_info}, shallow=True, hardlink=False)
                 res.count("shallow_transfers_before_the_full_one")
                 cfgd["shallow_first"] = True
-            r = _transfer(_st, odb, {obj.hash_info}, shallow=False, hardlink=False)
+            try:
+                r = _transfer(_st, odb, {obj.hash_info}, shallow=False, hardlink=False)
+            finally:
+                os.chdir("/")
             if r.failed:
                 res.violation("transfer-of-staged-objects-failed", f"{len(r.failed)} objects failed", case=case, detail=cfgd)
                 return
